@@ -182,7 +182,7 @@ func (s *Scheme) KeyGen(ctx context.Context, totalParties, threshold int) ([]byt
 		s.Send(uint8(MsgTypeSync), dkgTopicHash, msg, UniversalID(to))
 	})
 
-	dkgProtocolInstance := s.KeyGenFactory(uint16(s.SelfID))
+	dkgProtocolInstance := s.KeyGenFactory(uint16(membership.partyIDByUniversalID(s.SelfID)))
 
 	cleanup := s.initializeHandlers(dkgTopicHash, sync.HandleMessage, dkgProtocolInstance.ClassifyMsg)
 	defer cleanup()
@@ -230,8 +230,15 @@ func (m *membership) partyIDsByUniversalIDs(ids []UniversalID) ([]PartyID, error
 	return res, nil
 }
 
-func (m *membership) universalIDByPartyID(id PartyID) UniversalID {
-	return m.pID2UID[id]
+// universalIDsByPartyIDs maps each party to the node that represents it among the given
+// members of a session; several nodes may belong to the same party but only one of them
+// takes part in a given session.
+func (m *membership) universalIDsByPartyIDs(members []UniversalID) map[PartyID]UniversalID {
+	res := make(map[PartyID]UniversalID, len(members))
+	for _, uID := range members {
+		res[m.partyIDByUniversalID(uID)] = uID
+	}
+	return res
 }
 
 func computeMembership(mapping map[UniversalID]PartyID) *membership {
@@ -309,7 +316,7 @@ func (s *Scheme) runDKG(ctx context.Context, membership *membership, dkgProtocol
 
 		s.Logger.Debugf("Running keygen with parties %v", members)
 
-		if err := s.initializeDKG(dkgProtocolInstance, t, UIntsToUniversalIDs(members), membership); err != nil {
+		if err := s.initializeDKG(dkgProtocolInstance, t, UIntsToUniversalIDs(members), parties, membership); err != nil {
 			s.Logger.Errorf("Failed initializing DKG: %v", err)
 			resultChan <- mpcResult{err: err}
 			return
@@ -415,7 +422,7 @@ func (s *Scheme) ensureDKGNotRunning() error {
 }
 
 func (s *Scheme) ThresholdPK() ([]byte, error) {
-	signer := s.SignerFactory(uint16(s.SelfID))
+	signer := s.SignerFactory(uint16(computeMembership(s.Membership()).partyIDByUniversalID(s.SelfID)))
 	if err := signer.SetShareData(s.StoredData); err != nil {
 		s.Logger.Errorf("Failed setting share data: %v", err)
 		return nil, err
@@ -606,7 +613,8 @@ func (s *Scheme) prepareSigning(membership *membership, parties []PartyID, topic
 	}, func(m interface{}, from uint16) {
 		msg := m.(*rbcMsg)
 		s.Logger.Debugf("Got round %d message from %d", msg.round, from)
-		signingProtocol.OnMsg(msg.payload, from, msg.broadcast)
+		sourceParty := uint16(membership.partyIDByUniversalID(UniversalID(from)))
+		signingProtocol.OnMsg(msg.payload, sourceParty, msg.broadcast)
 	}, len(signers))
 
 	rbc = &rbcFilter{
@@ -632,12 +640,13 @@ func (s *Scheme) prepareSigning(membership *membership, parties []PartyID, topic
 	return signingProtocol, signingProtocol.SetShareData(s.StoredData)
 }
 
-func (s *Scheme) initializeDKG(dkg KeyGenerator, threshold int, members []UniversalID, membership *membership) error {
+func (s *Scheme) initializeDKG(dkg KeyGenerator, threshold int, members []UniversalID, parties []PartyID, membership *membership) error {
 	membersWithoutMe := excludeUniversal(members, s.SelfID)
+	sessionMembers := membership.universalIDsByPartyIDs(members)
 
 	dkgTopicHash := hash([]byte(DkgTopicName))
 
-	dkg.Init(universalIDsToUInts(members), threshold, func(msg []byte, isBroadcast bool, to uint16) {
+	dkg.Init(partyIDsToUInts(parties), threshold, func(msg []byte, isBroadcast bool, to uint16) {
 		var payload []byte
 		payload = append(payload, 255)
 		payload = append(payload, msg...)
@@ -645,20 +654,26 @@ func (s *Scheme) initializeDKG(dkg KeyGenerator, threshold int, members []Univer
 			s.Send(uint8(MsgTypeMPC), dkgTopicHash, payload, membersWithoutMe...)
 			return
 		}
-		s.Send(uint8(MsgTypeMPC), dkgTopicHash, payload, membership.universalIDByPartyID(PartyID(to)))
+		dst, exists := sessionMembers[PartyID(to)]
+		if !exists {
+			s.Logger.Warnf("Party %d is not a member of this key generation, dropping message for it", to)
+			return
+		}
+		s.Send(uint8(MsgTypeMPC), dkgTopicHash, payload, dst)
 	})
 
 	return nil
 }
 
 func (s *Scheme) initializeThresholdSigning(membership *membership, parties []PartyID, topicHash []byte, signers []UniversalID) (Signer, error) {
-	signer := s.SignerFactory(uint16(s.SelfID))
+	signer := s.SignerFactory(uint16(membership.partyIDByUniversalID(s.SelfID)))
 	if err := signer.SetShareData(s.StoredData); err != nil {
 		s.Logger.Errorf("Failed setting share data: %v", err)
 		return nil, err
 	}
 
 	membersWithoutMe := excludeUniversal(signers, s.SelfID)
+	sessionMembers := membership.universalIDsByPartyIDs(signers)
 
 	signer.Init(partyIDsToUInts(parties), s.Threshold, func(msg []byte, isBroadcast bool, to uint16) {
 		var payload []byte
@@ -668,7 +683,12 @@ func (s *Scheme) initializeThresholdSigning(membership *membership, parties []Pa
 			s.Send(uint8(MsgTypeMPC), topicHash, payload, membersWithoutMe...)
 			return
 		}
-		s.Send(uint8(MsgTypeMPC), topicHash, payload, membership.universalIDByPartyID(PartyID(to)))
+		dst, exists := sessionMembers[PartyID(to)]
+		if !exists {
+			s.Logger.Warnf("Party %d is not a member of this signing session, dropping message for it", to)
+			return
+		}
+		s.Send(uint8(MsgTypeMPC), topicHash, payload, dst)
 	})
 
 	return signer, nil
